@@ -195,4 +195,43 @@ PROPS = {
         "trusted_base": ["modelled, not verified: CommitPipeline::{commit,publish}, CommitQueue, CommitBatch; tokio Semaphore / oneshot by their documented semantics",
                          "the schedule controller (harness/src/sched.rs)"],
     },
+    "C17": {
+        "lean": ["Skv.Props.C17"],
+        "audit": "Skv/Audit/C17.lean",
+        "streams": [
+            {"name": "overflow", "harness": "c05", "driver": "c05", "quick_cases": 300, "thorough_cases": 5000,
+             "gen_args": ["--mode", "overflow"], "nontrivial": _c05_nontrivial,
+             "judge": lambda op, impl, spec: not ("PANIC" in impl or "HANG" in impl or impl == "bad-op")},
+        ],
+        "rule": "the real CommitPipeline over a mock environment under controlled schedules (as C05) with up to 14 commits per "
+                "case and a high rate of injected WAL/apply failures, so that failed batches pile up behind unapplied ones and "
+                "permits run out; every step is compared with the model, a thread that would block on the semaphore is observed "
+                "through available_permits; a panic or a call that does not return within 5 s is a violation; the drain at the "
+                "end of each case must return every call; non-trivial = at least two commits and a probe",
+        "assumptions": [
+            "liveness is checked as 'the deterministic drain returns every call' per explored schedule; fairness of the tokio scheduler "
+            "and real-time starvation are not modelled (partial)",
+            "write stalls, TaskManager wake-ups and close() are not yet in the model: their hang-freedom is not claimed by the theorems",
+        ],
+        "trusted_base": ["modelled, not verified: CommitPipeline (incl. the permit-with-batch flow control), tokio Semaphore semantics",
+                         "the schedule controller (harness/src/sched.rs)"],
+    },
+    "C15": {
+        "lean": ["Skv.Props.C15"],
+        "audit": "Skv/Audit/C15.lean",
+        "streams": [
+            {"name": "faults", "harness": "c05", "driver": "c05", "quick_cases": 300, "thorough_cases": 5000,
+             "nontrivial": lambda lines: any(l.startswith("begin") and (l.split()[3] == "1" or l.split()[4] != "-") for l in lines)
+                                          and any(l.startswith("probe") for l in lines),
+             "judge": c05_judge},
+        ],
+        "rule": "the real CommitPipeline under controlled schedules with injected WAL failures and apply failures after a prefix "
+                "(mock environment), probes after every few steps: a failed commit must leave none of its entries visible and "
+                "later commits must behave as the model says; non-trivial = case with at least one injected failure and a probe",
+        "assumptions": [
+            "pipeline level only: file-level faults (short write, ENOSPC, EIO, fsync error) in the WAL writer and the memtable "
+            "arena poisoning after ArenaFull are not yet exercised by this check (partial)",
+        ],
+        "trusted_base": ["modelled, not verified: CommitPipeline failure branches; the mock environment stands for WAL and memtable"],
+    },
 }
